@@ -34,6 +34,13 @@ func (st *State) exec(in ssa.Instruction) []*State {
 		}
 		o := &Obj{ID: id, Type: x.Type().(*types.Pointer).Elem()}
 		st.zero[id] = true
+		if bt, isB := o.Type.Underlying().(*types.Basic); isB && bt.Info()&types.IsInteger != 0 {
+			// an integer local that lives in memory (captured by a closure, address taken): a loop may accumulate into it
+			if ip.intCells == nil {
+				ip.intCells = map[string]types.Type{}
+			}
+			ip.intCells[id] = o.Type
+		}
 		// a re-executed alloc (never within one path, loops are cut) starts clean
 		for k := range st.mem {
 			if strings.HasPrefix(k, id+".") || k == id {
@@ -89,6 +96,9 @@ func (st *State) exec(in ssa.Instruction) []*State {
 		n, _ := ssau.FieldName(x)
 		st.vals[x] = st.fieldOf(base, n, x.Type())
 	case *ssa.IndexAddr:
+		if forks := st.forkOverTable(x); forks != nil {
+			return forks
+		}
 		st.vals[x] = st.indexAddr(x)
 	case *ssa.Index:
 		base := st.eval(x.X)
@@ -312,6 +322,22 @@ func (st *State) binop(x *ssa.BinOp) Val {
 			}
 			return st.opaqueInt(x, lin.NegInf, lin.PosInf)
 		case token.OR, token.XOR, token.AND_NOT:
+			// x | c (or x ^ c) with every possible bit of x below the lowest set bit of the constant c: the bits are disjoint, it is x + c
+			if x.Op != token.AND_NOT {
+				for _, pr := range [][2]lin.Form{{fa, fb}, {fb, fa}} {
+					v, c := pr[0], pr[1]
+					if !c.IsConst() || c.C < 0 || lin.LowerBound(v, ip) < 0 {
+						continue
+					}
+					if c.C == 0 {
+						return st.wrapCheck(x, v)
+					}
+					low := c.C & -c.C
+					if h := lin.UpperBound(v, ip); h < low {
+						return st.wrapCheck(x, v.Add(c))
+					}
+				}
+			}
 			if lin.LowerBound(fa, ip) >= 0 && lin.LowerBound(fb, ip) >= 0 {
 				ha, hb := lin.UpperBound(fa, ip), lin.UpperBound(fb, ip)
 				hi := int64(lin.PosInf)
@@ -674,6 +700,16 @@ func (st *State) call(x *ssa.Call) []*State {
 		if spec, ok := ip.Abstract[f]; ok && spec.ArgIdx < len(args) {
 			st.vals[x] = st.applyAbstract(x, f, spec, args, resName)
 			return []*State{st}
+		}
+	}
+	// a local closure called where it was made (`write := func(x T) error { … }; … write(a)`): its body runs in the caller's
+	// state with the free variables bound to what the MakeClosure captured (addresses of the caller's locals)
+	if mc, ok := cc.Value.(*ssa.MakeClosure); ok {
+		if f, isFn := mc.Fn.(*ssa.Function); isFn && f.Blocks != nil && st.depth < 12 && !ip.inProgress[f] && len(mc.Bindings) == len(f.FreeVars) {
+			for i, fv := range f.FreeVars {
+				st.vals[fv] = st.eval(mc.Bindings[i])
+			}
+			return st.inlineCall(x, f, args)
 		}
 	}
 	// package functions with bodies
